@@ -5,7 +5,7 @@ from pbt.props import _e1
 
 ID = 'C07'
 LEVEL = 'exploration'
-RULE = ('E1 histories under capacity pressure (arrivals larger than free '
+RULE = ('70% E1 histories (pure scheduler API) and 30% E2 histories (Master + ZkBackend + masterapi on the fake ZooKeeper, incl. reload/restore/restart paths of loader.py); E1 histories under capacity pressure (arrivals larger than free '
         'space, servers failing, priorities changing, equal priorities, '
         'schedule-once). Per cycle the captured queue of each partition is '
         'walked: an eligible instance that was on an up server and is no '
@@ -18,7 +18,7 @@ ASSUMPTIONS = [
     'queue order is captured by wrapping Cell._find_placements (observing '
     'only)',
 ]
-TRUSTED = ['pbt/cellsim.py', 'pbt/oracles.py']
+TRUSTED = ['pbt/cellsim.py', 'pbt/mastersim.py', 'pbt/fakezk.py', 'pbt/oracles.py']
 BUDGET = {'quick': 6000, 'thorough': 160000}
 
 PROFILE = {
@@ -28,8 +28,11 @@ PROFILE = {
 }
 
 
+E2_PROFILE = {'weights': {'app': 16, 'prio': 4, 'down': 2, 'rm': 3, 'finish': 2}, 'demand_hi': 10, 'pre': (3, 12)}
+
+
 def strategy(tier):
-    return gen.cell_case(PROFILE)
+    return gen.tagged(PROFILE, E2_PROFILE, e2_share=3)
 
 
 def watch(sim, info, flags):
